@@ -1130,7 +1130,7 @@ def r4_7_input_text(ctx, prog, rule="R4.7"):
             if matched_at is not None and nx:
                 bad.append("an attribute is examined after the first match (iteration %d after match in %d)" % (i, matched_at))
             for e in seg:
-                if e[0] == "choice" and str(e[1]).startswith("cmp:Eq") and e[2] == 1:
+                if e[0] == "choice" and ((str(e[1]).startswith("cmp:Eq") and e[2] == 1) or (str(e[1]).startswith("cmp:Ne") and e[2] == 0)):
                     matched_at = i
         r = C.expr_of(pa, pa.ret)
         if isinstance(r, tuple) and r[0] == "Result::Ok":
